@@ -137,6 +137,10 @@ func (s *pStmt) SQL(ind string) string {
 		return ind + "DECLARE " + s.name + " VIEW (x);\n" + ind + "INSERT INTO " + s.name + " VALUES (" + s.e.SQL() + ");\n"
 	case "probe_view":
 		return ind + "PRINT (SELECT SUM(x) FROM " + s.name + ");\n"
+	case "ins_view":
+		return ind + "INSERT INTO " + s.name + " VALUES (" + s.e.SQL() + ");\n"
+	case "upd_view":
+		return ind + "UPDATE " + s.name + " SET x = x + " + s.e.SQL() + ";\n"
 	}
 	return ""
 }
@@ -484,6 +488,28 @@ func (in *pInterp) exec(env []*pBlock, ss []*pStmt, inLoop bool) (int, int, *pEr
 				return flNone, 0, err
 			}
 			cur.views[s.name] = []int{v}
+		case "ins_view", "upd_view":
+			// a change made in an inner block lands in the table of the block that declared it
+			v, err := in.eval(env, s.e)
+			if err != nil {
+				return flNone, 0, err
+			}
+			found := false
+			for i := len(env) - 1; i >= 0 && !found; i-- {
+				if vs, ok := env[i].views[s.name]; ok {
+					found = true
+					if s.k == "ins_view" {
+						env[i].views[s.name] = append(vs, v)
+					} else {
+						for j := range vs {
+							vs[j] += v
+						}
+					}
+				}
+			}
+			if !found {
+				return flNone, 0, &pErr{"view undeclared"}
+			}
 		case "probe_view":
 			found := false
 			for i := len(env) - 1; i >= 0 && !found; i-- {
@@ -755,6 +781,9 @@ func (g *pGen) block(vis []string, declaredHere map[string]bool, depth int, inLo
 				out = append(out, &pStmt{k: "view", name: name, e: &pExpr{k: "lit", n: g.r.Range(1, 9)}})
 				declaredHere[name] = true
 				vis = append(vis, name)
+			} else if known && g.r.P(55) {
+				out = append(out, &pStmt{k: []string{"ins_view", "ins_view", "upd_view"}[g.r.Intn(3)], name: name, e: &pExpr{k: "lit", n: g.r.Range(1, 9)}})
+				g.features["viewdml"] = true
 			} else if known || g.r.P(8) {
 				out = append(out, &pStmt{k: "probe_view", name: name})
 			}
